@@ -416,16 +416,23 @@ def rule_operator_tables(F, R, which=('binop', 'countop', 'fixpoint')):
         for tok in extra:
             R.violation('rsbdd::parser::SymbolicBDD::parse_binary_operator / T / extra %s' % tok, 'T', 'token %s is accepted as a binary operator but is not one' % tok)
         # the look-ahead set in parse_sub_formula must be the same set of tokens
+        # (read from the success paths of parse_sub_formula, whatever form the test takes: a match on peek(), is_some_and(..), a helper)
         ts = lib.ithir.get(PARSER + 'parse_sub_formula')
         la = set()
         if ts:
-            for m in walk(ts['body']):
-                if m['k'] == 'Match':
-                    for a in m['arms']:
-                        if any(e['k'] == 'Call' and callee_name(e) == PARSER + 'parse_binary_operator' for e in walk(a['body'])):
-                            for p in flat_pats(a['pat']):
-                                tk = token_of_pat(p)
-                                if tk: la.add(tk)
+            import engine_a
+            try:
+                K_, _c = engine_a.consumers(lib)
+                for (evs, v_, env_) in engine_a.Walker(lib, K_).paths(PARSER + 'parse_sub_formula'):
+                    last = None
+                    for ev in evs:
+                        if ev[0] == 'la': last = ev[1]
+                        elif ev[0] == 'nt' and ev[1] == PARSER + 'parse_binary_operator':
+                            if last is not None: la |= set(last)
+                            break
+                        elif ev[0] in ('tok', 'anytok', 'nt', 'loop'): last = None
+            except engine_a.Undec as u:
+                la = {'<unreadable: %s>' % u.msg[:60]}
         ok = la == set(REF_BINOP)
         R.count('T:binary-operator-lookahead'); R.obligation(ok, 'T lookahead')
         if not ok:
